@@ -4,8 +4,16 @@ set -e
 cd "$(dirname "$0")"
 export GOFLAGS=-mod=mod GOPROXY=off GOSUMDB=off GOTOOLCHAIN=local GOPHERJS_SKIP_VERSION_CHECK=true CGO_ENABLED=0
 python3 tools/gen_manifest.py --check
-(cd lean && lake build)
-if [ -d harness/cmd/gvh ]; then
-  cp /repo/go.sum harness/go.sum
-  (cd harness && mkdir -p bin && go build -tags verif -o bin/gvh ./cmd/gvh)
-fi
+mkdir -p .locks evidence replays harness/bin
+PROPS=$(python3 -c "import json;print(' '.join(c['property_id'] for c in json.load(open('MANIFEST.json'))['checks']))")
+TARGETS=""
+for p in $PROPS; do
+  lp=$(echo $p | tr 'A-Z' 'a-z')
+  TARGETS="$TARGETS GV.Props.$p gvdriver_$lp"
+done
+(cd lean && lake build $TARGETS)
+cp /repo/go.sum harness/go.sum
+for d in harness/cmd/*/; do
+  n=$(basename $d)
+  (cd harness && go build -tags verif -o bin/$n ./cmd/$n) || echo "warning: harness $n does not build yet" >&2
+done
